@@ -62,6 +62,14 @@ func init() {
 			}
 			return 2000
 		},
+		// the flat backend's WAL file handle cannot be closed from outside (unexported field): keep the number
+		// of on-disk cases per child process small
+		Batch: func(tier string) int {
+			if tier == "thorough" {
+				return 500
+			}
+			return 0
+		},
 		Run:    run,
 		Floors: floors,
 		Init:   core.QuietLogs,
@@ -618,12 +626,12 @@ func (rn *runner) twinCheck(dir, prefix string) {
 			} else {
 				rn.cnt["revert_continuations_compared"]++
 			}
-			rn.cnt["diag_revert_root_compared"]++
+			rn.cnt["revert_root_compared"]++
 			if _, ok := sameRoots(orig.roots, eroots); !ok {
-				rn.cnt["diag_revert_root_diffs"]++
+				rn.cnt["revert_root_diffs"]++
 			} else if edump != nil {
 				if _, ok := sameDump(dumpOf(rn), edump); !ok {
-					rn.cnt["diag_revert_kvstore_diffs"]++
+					rn.cnt["revert_kvstore_diffs"]++
 				}
 			}
 		}
